@@ -846,6 +846,59 @@ func genFlags() []request {
 	return out
 }
 
+// attribute says which property a trace rejection concerns: the order / mode / result of open, flock, close and
+// the mutex steps concerns both (C07's linearizability rests on the locking); Transform's and Write's data steps,
+// the truncate, the read loop, returned values and final contents concern only C07.
+func attribute(x *execution, verdict string) []string {
+	both := []string{"C06", "C07"}
+	f := strings.Fields(verdict)
+	if len(f) < 3 || f[0] != "reject" {
+		return both
+	}
+	idx, err := strconv.Atoi(f[1])
+	if err != nil {
+		return both
+	}
+	if strings.Contains(verdict, "final contents differ") {
+		return []string{"C07"}
+	}
+	dataOp := func(op string) bool {
+		switch op {
+		case "pwrite", "write", "ftruncate", "read", "fstat":
+			return true
+		}
+		return false
+	}
+	obs := ""
+	if idx < len(x.events) {
+		e := x.events[idx]
+		obs = e.op
+		if e.op == "ret" && len(e.args) > 0 {
+			switch e.args[0] {
+			case "read", "write", "transform", "user":
+				obs = "data-ret"
+			}
+		}
+	}
+	// what the model expected, if the verdict says so
+	exp := ""
+	for _, marker := range []string{"model expects: ", "model next: ", "model: ", "(blocked): "} {
+		if i := strings.Index(verdict, marker); i >= 0 {
+			rest := strings.Fields(verdict[i+len(marker):])
+			if len(rest) > 0 {
+				exp = rest[0]
+			}
+			break
+		}
+	}
+	obsData := dataOp(obs) || obs == "data-ret"
+	expData := exp == "" || dataOp(exp)
+	if obsData && expData {
+		return []string{"C07"}
+	}
+	return both
+}
+
 // ---------------------------------------------------------------- the run
 
 func runLockedfile(tier string, seed int64, model string, replay string) *corr.Result {
@@ -917,7 +970,7 @@ func runLockedfile(tier string, seed int64, model string, replay string) *corr.R
 	}
 	for i, x := range xs {
 		if !strings.HasPrefix(out[i], "ok ") {
-			res.Disagree(x.req, "trace of the instrumented package", out[i])
+			res.DisagreeFor(attribute(x, out[i]), x.req, "trace of the instrumented package", out[i])
 		}
 	}
 	res.Evaluations = len(xs)
